@@ -242,13 +242,13 @@ def run_pool(specs, jobs, wall_limit):
     return results
 
 
-def load_baseline(pid):
-    """names of the obligations discharged on the unchanged tree (committed; written only by
-    `./check <id> --update-baseline`, never by a registered command)"""
+def load_baseline(pid, what='discharged'):
+    """names of the obligations discharged on the unchanged tree / keys of the tasks all of whose obligations
+    were (committed; written only by `./check <id> --update-baseline`, never by a registered command)"""
     p = ROOT / 'baseline' / f'{pid}.json'
     if not p.exists():
         return set()
-    return set(json.loads(p.read_text()).get('discharged', []))
+    return set(json.loads(p.read_text()).get(what, []))
 
 
 def load_known_findings():
@@ -284,7 +284,7 @@ def run_property(prop: Prop, tier='quick', seed=0, jobs=None) -> int:
     if os.environ.get('VERIF_SERIAL'):
         results = [run_task(s) for s in specs]
     else:
-        results = run_pool(specs, jobs, wall_limit=900 if tier == 'thorough' else 420)
+        results = run_pool(specs, jobs, wall_limit=1800 if tier == 'thorough' else 900)
     known = load_known_findings()
     violations = []
     known_hits = []
@@ -306,6 +306,7 @@ def run_property(prop: Prop, tier='quick', seed=0, jobs=None) -> int:
     axioms_used: Dict[str, str] = {}
     lemma_tasks = {t.name for t in tasks if t.kind == 'lemma'}
     baseline = load_baseline(pid)
+    verified_tasks = load_baseline(pid, 'verified_tasks')
     for t, r in zip(tasks, results):
         if r['status'] == 'error':
             faults.append(f'{t.key()}: {r["message"]}')
@@ -371,7 +372,7 @@ def run_property(prop: Prop, tier='quick', seed=0, jobs=None) -> int:
                 by_backend[ob['backend']] = by_backend.get(ob['backend'], 0) + 1
                 continue
             if ob['status'] == 'unknown':
-                if mine and ob['kind'] not in ('pre',) and ob['name'] in baseline:
+                if mine and ob['kind'] not in ('pre',) and (ob['name'] in baseline or t.key() in verified_tasks):
                     # discharged on the unchanged tree (committed baseline), not discharged now: reported as a
                     # violation without a failing input, with the back ends' answers as the verifier's output
                     lost.append((t, r, ob))
@@ -479,7 +480,11 @@ def run_property(prop: Prop, tier='quick', seed=0, jobs=None) -> int:
           'wall_s': round(wall, 2), 'violations': vcount}
     if os.environ.get('VERIF_UPDATE_BASELINE'):
         names_all, names_bad = set(), set()
+        vt = []
         for t, r in zip(tasks, results):
+            obs_ = [ob for ob in (r.get('obligations', []) or []) if isinstance(ob, dict)]
+            if r.get('status') == 'ok' and obs_ and all(ob['status'] == 'discharged' for ob in obs_):
+                vt.append(t.key())
             for ob in r.get('obligations', []) or []:
                 if not isinstance(ob, dict):
                     continue
@@ -488,7 +493,7 @@ def run_property(prop: Prop, tier='quick', seed=0, jobs=None) -> int:
                     names_bad.add(ob['name'])
         (ROOT / 'baseline').mkdir(exist_ok=True)
         (ROOT / 'baseline' / f'{pid}.json').write_text(json.dumps(
-            {'property': pid, 'discharged': sorted(names_all - names_bad)}, indent=1))
+            {'property': pid, 'discharged': sorted(names_all - names_bad), 'verified_tasks': sorted(vt)}, indent=1))
     (ROOT / 'evidence').mkdir(exist_ok=True)
     (ROOT / 'evidence' / f'{pid}.json').write_text(json.dumps(ev, indent=1, default=str))
     for ln in lines:
